@@ -1,6 +1,335 @@
-(* C13, region level *)
+(* C13, region level: the in-place and the copying path of translate / scale / rotate90 agree,
+   keep the region invariant, and histories do not depend on the forms used. *)
 From DF Require Import Prelude Constants_gen Region Mesh Subregions History QLemmas ListLemmas.
 Open Scope Q_scope.
 
 Lemma reject_unchanged s io : is_ok (step (fst io) (snd io) s) = false -> apply_step s io = s.
 Proof. unfold apply_step. destruct (step (fst io) (snd io) s); simpl; [discriminate | reflexivity]. Qed.
+
+(* ---------- min / max, Leibniz ---------- *)
+Lemma Qmin_lt_l a b : a < b -> Qmin a b = a.
+Proof.
+  intros H. unfold Qmin, GenericMinMax.gmin. destruct (Qcompare a b) eqn:E; try reflexivity.
+  apply Qgt_alt in E. lra.
+Qed.
+Lemma Qmax_lt_r a b : a < b -> Qmax a b = b.
+Proof.
+  intros H. unfold Qmax, GenericMinMax.gmax. destruct (Qcompare a b) eqn:E; try reflexivity.
+  - apply Qeq_alt in E. lra.
+  - apply Qgt_alt in E. lra.
+Qed.
+
+Lemma minmax_diff a b : Qmax a b - Qmin a b == 0 <-> b - a == 0.
+Proof.
+  destruct (Qlt_le_dec b a) as [H|H].
+  - rewrite (Q.max_l a b), (Q.min_r a b) by lra. split; intros; lra.
+  - rewrite (Q.max_r a b), (Q.min_l a b) by lra. reflexivity.
+Qed.
+
+Lemma minmax_lt a b : ~ b - a == 0 -> Qmin a b < Qmax a b.
+Proof.
+  intros H. destruct (Qlt_le_dec b a) as [H1|H1].
+  - rewrite (Q.max_l a b), (Q.min_r a b) by lra. exact H1.
+  - rewrite (Q.max_r a b), (Q.min_l a b) by lra.
+    destruct (Qlt_le_dec a b) as [H2|H2]; [exact H2|]. exfalso. apply H. lra.
+Qed.
+
+Lemma Qeq_bool_ext a b : (a == 0 <-> b == 0) -> Qeq_bool a 0 = Qeq_bool b 0.
+Proof.
+  intros H. destruct (Qeq_bool a 0) eqn:Ea, (Qeq_bool b 0) eqn:Eb; try reflexivity.
+  - apply Qeq_bool_iff in Ea. apply H in Ea. apply Qeq_bool_iff in Ea. congruence.
+  - apply Qeq_bool_iff in Eb. apply H in Eb. apply Qeq_bool_iff in Eb. congruence.
+Qed.
+
+(* ---------- zero_edge ---------- *)
+Lemma zero_edge_minmax p1 : forall p2,
+  zero_edge (map2 Qmin p1 p2) (map2 Qmax p1 p2) = zero_edge p1 p2.
+Proof.
+  unfold zero_edge, edges_of. induction p1 as [|a p1 IH]; intros [|b p2]; simpl; try reflexivity.
+  rewrite IH. f_equal. apply Qeq_bool_ext. apply minmax_diff.
+Qed.
+
+Lemma zero_edge_false_lt p1 : forall p2, length p1 = length p2 -> zero_edge p1 p2 = false ->
+  Forall2 (fun a b => a < b) (map2 Qmin p1 p2) (map2 Qmax p1 p2).
+Proof.
+  unfold zero_edge, edges_of. induction p1 as [|a p1 IH]; intros [|b p2] HL H; simpl in *; try discriminate.
+  - constructor.
+  - apply orb_false_iff in H. destruct H as [H1 H2]. constructor.
+    + apply minmax_lt. intros E. apply Qeq_bool_iff in E. congruence.
+    + apply IH; [lia | exact H2].
+Qed.
+
+Lemma lt_zero_edge p1 : forall p2, Forall2 (fun a b => a < b) p1 p2 ->
+  zero_edge p1 p2 = false /\ map2 Qmin p1 p2 = p1 /\ map2 Qmax p1 p2 = p2.
+Proof.
+  unfold zero_edge, edges_of. induction p1 as [|a p1 IH]; intros p2 H; inversion H; subst; simpl.
+  - repeat split.
+  - destruct (IH _ H4) as (E1 & E2 & E3). rewrite E1, E2, E3, Qmin_lt_l, Qmax_lt_r by assumption.
+    repeat split. rewrite orb_false_r. destruct (Qeq_bool (y - a) 0) eqn:E; [|reflexivity].
+    apply Qeq_bool_iff in E. lra.
+Qed.
+
+Lemma map2_length' {A B C} (f : A -> B -> C) l1 : forall l2, length l1 = length l2 ->
+  length (map2 f l1 l2) = length l1.
+Proof. induction l1; intros [|b l2] H; simpl in *; try discriminate; [reflexivity | f_equal; apply IHl1; lia]. Qed.
+
+Lemma map3_length' {A B C D} (f : A -> B -> C -> D) l1 : forall l2 l3,
+  length l1 = length l2 -> length l1 = length l3 -> length (map3 f l1 l2 l3) = length l1.
+Proof.
+  induction l1; intros [|b l2] [|c l3] H1 H2; simpl in *; try discriminate; [reflexivity|].
+  f_equal; apply IHl1; lia.
+Qed.
+
+Lemma set_nth_len {A} i (x : A) l : length (set_nth i x l) = length l.
+Proof. revert i; induction l; intros [|i]; simpl; auto. Qed.
+
+Lemma nodupb_true l : NoDup l -> nodupb l = true.
+Proof.
+  induction 1 as [|x l Hx _ IH]; simpl; [reflexivity|]. rewrite IH, andb_true_r.
+  apply negb_true_iff. destruct (existsb (String.eqb x) l) eqn:E; [|reflexivity].
+  apply existsb_exists in E. destruct E as (y & Hy & Exy). apply String.eqb_eq in Exy. subst. contradiction.
+Qed.
+
+(* ---------- the constructor path equals the assign-min/max path ---------- *)
+Lemma finish_copy_minmax p1 p2 us r : wf_region r ->
+  length p1 = ndim r -> length p2 = ndim r -> length us = ndim r ->
+  finish_copy p1 p2 us r = finish_minmax p1 p2 us r.
+Proof.
+  intros (W1 & W2 & W3 & W4 & W5 & W6 & W7) L1 L2 L3. unfold ndim in *.
+  unfold finish_copy, finish_minmax, mk_region.
+  rewrite L1, L2, Nat.eqb_refl. simpl.
+  destruct (length (pmin r) =? 0)%nat eqn:E0; [apply Nat.eqb_eq in E0; lia|].
+  rewrite W3, Nat.eqb_refl. simpl. rewrite (nodupb_true (dims r) W5). simpl.
+  rewrite L3, Nat.eqb_refl. simpl.
+  fold (zero_edge (map2 Qmin p1 p2) (map2 Qmax p1 p2)). rewrite zero_edge_minmax. reflexivity.
+Qed.
+
+Lemma finish_direct_minmax p1 p2 us r : Forall2 (fun a b => a < b) p1 p2 ->
+  finish_direct p1 p2 us r = finish_minmax p1 p2 us r.
+Proof.
+  intros H. destruct (lt_zero_edge _ _ H) as (E1 & E2 & E3). unfold finish_direct, finish_minmax.
+  rewrite E1, E2, E3. reflexivity.
+Qed.
+
+(* ---------- what the validated arguments deliver ---------- *)
+Lemma bind_ok {A B} (r : res A) (f : A -> res B) y : bind r f = OK y -> exists x, r = OK x /\ f x = OK y.
+Proof. destruct r; simpl; [eauto | discriminate]. Qed.
+
+Lemma parse_vec_len nd v w : parse_vec nd v = OK w -> length w = nd.
+Proof.
+  destruct v; simpl.
+  - destruct (nd =? 1)%nat eqn:E; [|discriminate]. intros H; inversion H. apply Nat.eqb_eq in E. simpl. lia.
+  - destruct (length l =? nd)%nat eqn:E; simpl; [|discriminate].
+    destruct (forallb is_real l); simpl; [|discriminate]. intros H; inversion H.
+    rewrite map_length. apply Nat.eqb_eq. exact E.
+  - discriminate.
+Qed.
+
+Lemma parse_factor_len nd v w : parse_factor nd v = OK w -> length w = nd.
+Proof.
+  destruct v; simpl.
+  - intros H; inversion H. apply repeat_length.
+  - destruct (length l =? nd)%nat eqn:E; simpl; [|discriminate].
+    destruct (forallb is_real l); simpl; [|discriminate]. intros H; inversion H.
+    rewrite map_length. apply Nat.eqb_eq. exact E.
+  - discriminate.
+Qed.
+
+Lemma parse_ref_scale_len nd c v w : length c = nd -> parse_ref_scale nd c v = OK w -> length w = nd.
+Proof.
+  intros Hc. destruct v; simpl.
+  - intros H; inversion H; congruence.
+  - destruct (nd =? 1)%nat eqn:E; [|discriminate]. intros H; inversion H. apply Nat.eqb_eq in E. simpl. lia.
+  - destruct (length l =? nd)%nat eqn:E; simpl; [|discriminate].
+    destruct (forallb is_real l); simpl; [|discriminate]. intros H; inversion H.
+    rewrite map_length. apply Nat.eqb_eq. exact E.
+  - discriminate.
+Qed.
+
+Lemma hswap_len {A} a b (d : A) l : length (hswap a b d l) = length l.
+Proof. unfold hswap. rewrite !set_nth_len. reflexivity. Qed.
+
+Lemma Forall2_len {A B} (P : A -> B -> Prop) l1 l2 : Forall2 P l1 l2 -> length l1 = length l2.
+Proof. induction 1; simpl; congruence. Qed.
+
+Lemma translate_lt lo : forall hi w, Forall2 (fun a b => a < b) lo hi -> length w = length lo ->
+  Forall2 (fun a b => a < b) (map2 Qplus lo w) (map2 Qplus hi w).
+Proof.
+  induction lo as [|a lo IH]; intros hi w H L; inversion H; subst; destruct w; simpl in *; try discriminate.
+  - constructor.
+  - constructor; [lra | apply IH; [assumption | lia]].
+Qed.
+
+Lemma prep_lengths o r p1 p2 us : wf_region r -> prep o r = OK (p1, p2, us) ->
+  length p1 = ndim r /\ length p2 = ndim r /\ length us = ndim r /\
+  (match o with HTranslate _ => Forall2 (fun a b => a < b) p1 p2 | _ => True end).
+Proof.
+  intros (W1 & W2 & W3 & W4 & W5 & W6 & W7) H. unfold ndim in *. destruct o; simpl in H.
+  - apply bind_ok in H. destruct H as (w & Hw & H). inversion H; subst. apply parse_vec_len in Hw.
+    unfold ndim in Hw.
+    rewrite !map2_length' by lia. repeat split; try lia. apply translate_lt; [exact W6 | lia].
+  - apply bind_ok in H. destruct H as (fs & Hf & H). apply bind_ok in H. destruct H as (rf & Hr & H).
+    inversion H; subst. apply parse_factor_len in Hf. apply parse_ref_scale_len in Hr.
+    2:{ unfold center. rewrite map2_length'; unfold ndim; lia. }
+    unfold ndim in *.
+    assert (L1 : length (map3 hscale_lo rf (pmin r) fs) = length (pmin r)).
+    { rewrite map3_length'; lia. }
+    assert (LE : length (edges r) = length (pmin r)).
+    { unfold edges, edges_of. rewrite map2_length'; lia. }
+    assert (L2 : length (map3 hscale_hi (map3 hscale_lo rf (pmin r) fs) (edges r) fs) = length (pmin r)).
+    { rewrite map3_length'; lia. }
+    repeat split; try assumption.
+  - destruct (String.eqb ax1 ax2); [discriminate|].
+    apply bind_ok in H. destruct H as (kz & Hk & H). apply bind_ok in H. destruct H as (rf & Hr & H).
+    apply bind_ok in H. destruct H as (a & Ha & H). apply bind_ok in H. destruct H as (b & Hb & H).
+    destruct (nth a rf EBad); [|discriminate]. destruct (nth b rf EBad); [|discriminate].
+    inversion H; subst. unfold hrot_pt. rewrite !set_nth_len.
+    repeat split; try lia. destruct (Z.odd kz); [rewrite hswap_len|]; lia.
+Qed.
+
+(* ---------- one step ---------- *)
+Theorem rstep_inplace_eq_copy o r : wf_region r -> rstep true o r = rstep false o r.
+Proof.
+  intros W. unfold rstep. destruct (prep o r) as [[[p1 p2] us]|e] eqn:E; simpl; [|reflexivity].
+  destruct (prep_lengths o r p1 p2 us W E) as (L1 & L2 & L3 & LT).
+  rewrite (finish_copy_minmax p1 p2 us r W L1 L2 L3).
+  destruct o; try reflexivity. apply finish_direct_minmax. exact LT.
+Qed.
+
+Theorem rstep_inv ip o r r' : wf_region r -> rstep ip o r = OK r' -> wf_region r'.
+Proof.
+  intros W H. assert (H' : rstep true o r = OK r').
+  { destruct ip; [exact H | rewrite rstep_inplace_eq_copy; assumption]. }
+  clear H. unfold rstep in H'. destruct (prep o r) as [[[p1 p2] us]|e] eqn:E; simpl in H'; [|discriminate].
+  destruct (prep_lengths o r p1 p2 us W E) as (L1 & L2 & L3 & LT).
+  assert (HM : finish_minmax p1 p2 us r = OK r').
+  { destruct o; try exact H'. rewrite <- finish_direct_minmax; assumption. }
+  clear H'. unfold finish_minmax in HM. destruct (zero_edge p1 p2) eqn:Z; [discriminate|].
+  inversion HM; subst; clear HM. destruct W as (W1 & W2 & W3 & W4 & W5 & W6 & W7). unfold ndim in *.
+  unfold wf_region; simpl. rewrite !map2_length' by lia.
+  repeat split; try lia; try assumption.
+  apply zero_edge_false_lt; [lia | exact Z].
+Qed.
+
+(* dims, tolerance factor and dimension are never touched *)
+Theorem rstep_keeps ip o r r' : wf_region r -> rstep ip o r = OK r' ->
+  dims r' = dims r /\ tf r' = tf r /\ length (pmin r') = length (pmin r).
+Proof.
+  intros W H. assert (H' : rstep true o r = OK r').
+  { destruct ip; [exact H | rewrite rstep_inplace_eq_copy; assumption]. }
+  clear H. unfold rstep in H'. destruct (prep o r) as [[[p1 p2] us]|e] eqn:E; simpl in H'; [|discriminate].
+  destruct (prep_lengths o r p1 p2 us W E) as (L1 & L2 & L3 & LT). unfold ndim in *.
+  assert (HM : finish_minmax p1 p2 us r = OK r').
+  { destruct o; try exact H'. rewrite <- finish_direct_minmax; assumption. }
+  unfold finish_minmax in HM. destruct (zero_edge p1 p2); [discriminate|]. inversion HM; subst; simpl.
+  rewrite map2_length' by lia. repeat split; lia.
+Qed.
+
+(* ---------- the documented maps ---------- *)
+(* translation adds the vector *)
+Theorem translate_adds ip w r : wf_region r -> length w = ndim r ->
+  rstep ip (HTranslate (VSeq (map EReal w))) r =
+  OK (mkRegion (map2 Qplus (pmin r) w) (map2 Qplus (pmax r) w) (dims r) (units r) (tf r)).
+Proof.
+  intros W L.   assert (E : rstep ip (HTranslate (VSeq (map EReal w))) r = rstep true (HTranslate (VSeq (map EReal w))) r).
+  { destruct ip; [reflexivity | symmetry; apply rstep_inplace_eq_copy; exact W]. }
+  rewrite E. unfold rstep, prep, parse_vec. rewrite map_length, L, Nat.eqb_refl. simpl.
+  assert (R : forallb is_real (map EReal w) = true) by (clear; induction w; simpl; auto).
+  rewrite R. simpl. assert (V : map eval (map EReal w) = w).
+  { clear. induction w; simpl; [reflexivity | f_equal; assumption]. }
+  rewrite V. unfold finish_direct.
+  destruct W as (W1 & W2 & W3 & W4 & W5 & W6 & W7). unfold ndim in L.
+  destruct (lt_zero_edge _ _ (translate_lt _ _ w W6 L)) as (Z & _ & _). rewrite Z. reflexivity.
+Qed.
+
+(* per axis, scaling is x -> R + s*(x - R) on both corners, re-ordered *)
+Lemma scale_axis R s lo hi :
+  hscale_lo R lo s == R + s * (lo - R) /\
+  hscale_hi (hscale_lo R lo s) (hi - lo) s == R + s * (hi - R).
+Proof. unfold hscale_lo, hscale_hi. split; ring. Qed.
+
+(* a scaled edge vanishes exactly when the factor does *)
+Lemma scale_edge_zero R s lo hi : lo < hi ->
+  (hscale_hi (hscale_lo R lo s) (hi - lo) s - hscale_lo R lo s == 0 <-> s == 0).
+Proof.
+  intros H. unfold hscale_hi, hscale_lo. split; intros E.
+  - assert (E' : (hi - lo) * s == 0) by lra. apply Qmult_integral in E'. destruct E' as [E'|E']; [lra | exact E'].
+  - rewrite E. ring.
+Qed.
+
+(* the centre of a region is a fixed point of a quarter turn about it, so it does not matter
+   whether Mesh.rotate90(inplace=True) reads its default reference point before or after *)
+Lemma rot_fixed a b k ra rb (p : list Q) : nth a p 0 == ra -> nth b p 0 == rb ->
+  forall j, nth j (hrot_pt a b k ra rb p) 0 == nth j p 0.
+Proof.
+  intros Ha Hb j. unfold hrot_pt.
+  assert (C : forall jj i x (l : list Q), x == nth i l 0 -> nth jj (set_nth i x l) 0 == nth jj l 0).
+  { clear. intros jj i x l. revert i jj. induction l as [|y l IH]; intros [|i] [|jj] H; simpl in *; try reflexivity; auto. }
+  assert (N : nth b (set_nth a (ra + (fst (hrot_cs k) * (nth a p 0 - ra) - snd (hrot_cs k) * (nth b p 0 - rb))) p) 0 == nth b p 0).
+  { apply C. rewrite Ha, Hb. ring. }
+  rewrite C.
+  - apply C. rewrite Ha, Hb. ring.
+  - rewrite N, Ha, Hb. ring.
+Qed.
+
+(* ---------- histories on a region ---------- *)
+Definition rrun (h : list (bool * hop)) (r : region) : region :=
+  fold_left (fun r io => match rstep (fst io) (snd io) r with OK r' => r' | Err _ => r end) h r.
+
+Lemma run_region h : forall r, run h (SRegion r) = SRegion (rrun h r).
+Proof.
+  induction h as [|io h IH]; intros r; simpl; [reflexivity|].
+  unfold apply_step at 1. simpl. destruct (rstep (fst io) (snd io) r); simpl; apply IH.
+Qed.
+
+Theorem rrun_inv h : forall r, wf_region r -> wf_region (rrun h r).
+Proof.
+  induction h as [|io h IH]; intros r W; simpl; [exact W|].
+  destruct (rstep (fst io) (snd io) r) eqn:E; apply IH; [eapply rstep_inv; eassumption | exact W].
+Qed.
+
+Theorem rrun_forms ops : forall f1 f2 r, wf_region r ->
+  length f1 = length ops -> length f2 = length ops ->
+  rrun (combine f1 ops) r = rrun (combine f2 ops) r.
+Proof.
+  induction ops as [|o ops IH]; intros [|b1 f1] [|b2 f2] r W L1 L2; simpl in *; try discriminate; try reflexivity.
+  assert (E : rstep b1 o r = rstep b2 o r).
+  { destruct b1, b2; try reflexivity; [| symmetry]; apply rstep_inplace_eq_copy; exact W. }
+  rewrite E. destruct (rstep b2 o r) eqn:E2; apply IH; try lia; try exact W.
+  eapply rstep_inv; eassumption.
+Qed.
+
+Theorem inv_reachable_region h r : wf_region r -> Inv (run h (SRegion r)).
+Proof. intros W. rewrite run_region. simpl. apply rrun_inv. exact W. Qed.
+
+Theorem forms_irrelevant_region ops f1 f2 r : wf_region r ->
+  length f1 = length ops -> length f2 = length ops ->
+  run (combine f1 ops) (SRegion r) = run (combine f2 ops) (SRegion r).
+Proof. intros W L1 L2. rewrite !run_region. f_equal. apply rrun_forms; assumption. Qed.
+
+Definition demo_region : region :=
+  mkRegion [0; 0; 0] [4; 2; 1] ["x"%string; "y"%string; "z"%string] ["m"%string; "nm"%string; "s"%string]
+           (1 # 1000000000000).
+
+Lemma demo_wf : wf_region demo_region.
+Proof.
+  unfold wf_region, demo_region; simpl. repeat split; try lia; try lra.
+  - repeat constructor; simpl; intuition discriminate.
+  - repeat constructor; lra.
+Qed.
+
+(* negative factor in place: corners re-ordered; zero factor: refused by both forms; a history *)
+Lemma demo_steps :
+  wf_region demo_region /\
+  (exists r', rstep true (HScale (VScalar (-(1))) (RSeq [EReal 0; EReal 0; EReal 0])) demo_region = OK r' /\
+     qlist_eqb (pmin r') [-(4); -(2); -(1)] = true /\ qlist_eqb (pmax r') [0; 0; 0] = true) /\
+  is_ok (rstep true (HScale (VScalar 0) RNone) demo_region) = false /\
+  is_ok (rstep false (HScale (VScalar 0) RNone) demo_region) = false /\
+  (exists r', rstep true (HRot "x" "y" (KInt 1) RNone) demo_region = OK r' /\
+     units r' = ["nm"%string; "m"%string; "s"%string] /\
+     qlist_eqb (pmin r') [1; -(1); 0] = true /\ qlist_eqb (pmax r') [3; 3; 1] = true).
+Proof.
+  split; [exact demo_wf|]. split; [eexists; split; [reflexivity|]; split; reflexivity|].
+  split; [reflexivity|]. split; [reflexivity|].
+  eexists; split; [reflexivity|]. split; [reflexivity|]. split; reflexivity.
+Qed.
